@@ -62,7 +62,11 @@ def worker_main(spec):
                 prop, tier, spec["seed"] * 64 + spec["idx"], examples, time_cap, stats,
                 known | set(found), shrink_cap=45.0 if tier == "quick" else 240.0)
             found.update(more)
+        seen = set()
         for sig, (case, v) in found.items():
+            if v.sig in seen:
+                continue
+            seen.add(v.sig)
             result["violations"].append({"case": case, "violation": v.to_json()})
     except Exception:
         result["error"] = traceback.format_exc()
